@@ -28,6 +28,7 @@ TIERS = {"quick": {"cases": 4000, "nodes": (2, 9), "nstmts": (3, 9)}, "thorough"
 FLOORS = {"quick": {"immut_stmt_checks": 20000, "alias_pairs": 20000, "perturbations": 5000},
           "thorough": {"immut_stmt_checks": 700000, "alias_pairs": 700000, "perturbations": 200000}}
 SPECS = sorted(OT.SPECS)
+NOGRU = [f for f in SPECS if f != 'gru']
 
 
 def gen_case(rng, cfg, idx):
@@ -68,7 +69,7 @@ def gen_case(rng, cfg, idx):
     if r == 1:
         c = C05.gen_case(rng, {"nstmts": cfg["nstmts"]}, idx)
         return None if c is None else {"kind": "hist", "prog": c["prog"], "L": c["L"]}
-    fn = SPECS[(idx // 3) % len(SPECS)]
+    fn = "gru" if idx % 48 == 32 else NOGRU[(idx // 3) % len(NOGRU)]   # gru (numba JIT) only on indices that land on one shard
     c = C02.gen_single(rng, fn)
     if c is None:
         return None
